@@ -1,12 +1,10 @@
-// unit int_memsize_gcd_ext_ops (NOT REGISTERED: it FAILS on the unchanged tree, that is the genuine defect proposed_fixes/MEM2):
-// gcd/lehmer.rs memory_requirement_ext_up_to, gcd/mod.rs memory_requirement_ext_exact + gcd_ext_in_place under the
-// (FUNCTIONAL +) RESOURCE contract: the Layout computed provides ext_need(lhs_len) = 2 (lhs_len + 1) + gneed(ceil(lhs_len / 2))
-// Words, which is what the kernel gcd_ext_in_place needs (PROVED in int_memsize_gcd_ext; //@@ SIG here).
-// The annotated copy of lehmer::memory_requirement_ext_up_to is written for the REPAIRED text (`(lhs_len + 1) / 2`): verify with
-// `python3 -m engine.dev int_memsize_gcd_ext_ops.rs --repo <tree with proposed_fixes/MEM2/patch.diff applied>`; on the unchanged
-// tree the contract is transplanted onto `lhs_len / 2` and the proof fails.  Register under C12 / C13 / C16 once repaired.
-// The callers gcd_ops.rs gcd_ext_large (allocation = clones + max(gcd_mem, post_mem)) and modular/div.rs inv_large (allocation =
-// exactly memory_requirement_ext_exact: where the defect shows) are not yet under a resource contract.
+// unit int_memsize_gcd_ext_ops: gcd/lehmer.rs memory_requirement_ext_up_to, gcd/mod.rs memory_requirement_ext_exact +
+// gcd_ext_in_place under the (FUNCTIONAL +) RESOURCE contract (C12, C13, C16): the Layout computed provides
+// ext_need(lhs_len) = 2 (lhs_len + 1) + gneed(ceil(lhs_len / 2)) Words, which is what the kernel gcd_ext_in_place needs
+// (PROVED in int_memsize_gcd_ext; //@@ SIG here).
+// (Until the repair 914fd28 -- `lhs_len / 2` -> `(lhs_len + 1) / 2` -- this unit FAILED: the final cofactor product can have
+// lhs_len + 1 words; ConstDivisor::new(2^3072 + 12345 * 2^1536 + 3).reduce(2^1536 + 12345).inv() panicked.)
+// The callers are in int_memsize_moddiv (modular/div.rs inv_large) and int_memsize_gcd_ext_large (gcd_ops.rs gcd_ext_large).
 #![allow(unused_imports, unused_variables, dead_code, non_snake_case, unused_mut, unused_parens, unused_braces)]
 use vstd::prelude::*;
 use core::cmp::Ordering;
